@@ -344,7 +344,21 @@ def arrays(rng, n):
     out = []
     for _ in range(n):
         r = rng.random()
-        if r < 0.55:
+        if r < 0.1:
+            # long arrays with few key classes but distinguishable elements: sorting algorithms switch
+            # strategy with the length (insertion sort for short slices), so stability, maximal runs
+            # and "first of each group" must also be observed beyond a few dozen elements
+            m = rng.choice([21, 33, 40, 64, 65, 100, 130])
+            kind = rng.randrange(3)
+            if kind == 0:
+                out.append([rng.choice(pool) for _ in range(m)])
+            elif kind == 1:
+                ks = rng.sample(pool, 3)
+                out.append([[rng.choice(ks), i] for i in range(m)])
+            else:
+                ks = rng.sample(pool, 3)
+                out.append([Obj([(S("a"), rng.choice(ks)), (S("b"), i)]) for i in range(m)])
+        elif r < 0.55:
             xs = [rng.choice(pool) for _ in range(rng.randrange(0, 8))]
             if xs and rng.random() < 0.6:
                 xs += rng.sample(xs, min(len(xs), 2))
